@@ -362,7 +362,12 @@ def load_known(pid):
         return []
     with open(p) as f:
         d = json.load(f)
-    return [k for k in d.get("findings", []) if k["property"] == pid]
+    fs = list(d.get("findings", []))
+    extra = os.environ.get("VERIF_FINDINGS_EXTRA")   # development only: proposed entries under review
+    if extra and os.path.exists(extra):
+        with open(extra) as f:
+            fs += json.load(f)
+    return [k for k in fs if k["property"] == pid]
 
 
 def validate_with_findings(ctx, module, traces, nontrivial=None, **kw):
